@@ -358,7 +358,10 @@ def decode_stream(
         elif boundary:
             r.boundary_hit = True
             if not accept_boundary():
-                hv.append(("too-big", P1009))
+                # (see the inflated case below: a text message of exactly the limit may also end as 1007; whether its
+                # bytes are valid UTF-8 is not known at header time, so the code is admitted for text under decode_text)
+                is_text = (op == OP_TEXT or (op == OP_CONT and open_op == OP_TEXT)) and decode_text
+                hv.append(("too-big", P1009 | P1007 if is_text else P1009))
         if masked:
             if q + 4 > n:
                 r.end, r.doomed = "incomplete", hv
@@ -446,7 +449,10 @@ def decode_stream(
             elif max_msg_size and len(out) == max_msg_size:
                 r.boundary_hit = True
                 if not accept_boundary():
-                    mv.append(("too-big-inflated", P1009))
+                    # exactly at the limit and not delivered: refused for its size (1009) - or accepted for its size and
+                    # then refused as text that is not UTF-8 (1007); both readings of "== limit" are conforming
+                    bad_text = open_op == OP_TEXT and decode_text and not utf8_valid(out)
+                    mv.append(("too-big-inflated", P1009 | P1007 if bad_text else P1009))
             body = out
         ok8 = True
         if not mv and open_op == OP_TEXT:
